@@ -1,9 +1,10 @@
 CONSTANTS
+  Dom = "replay_quick"
   NCb = 3
-  Names = {"all", "start", "descriptor", "event", "stop"}
-  PlanIds = {1, 2, 5}
+  Names = {}
+  PlanIds = {}
   MaxRaise = 1
-  DeliverAll = TRUE
+  DeliverAlls = {FALSE, TRUE}
 SPECIFICATION Spec
 INVARIANT TypeOK
 INVARIANT C19_OnceInOrder
@@ -13,4 +14,5 @@ INVARIANT C19_PropagateDelivers
 INVARIANT C19_IgnoreDoesNotStopPlan
 INVARIANT C19_PropagateEndsPlan
 INVARIANT C19_RunClosedFail
-INVARIANT C19_RunClosedForAll_Strict
+INVARIANT C19_RunClosedForAll
+CONSTRAINT Dump
